@@ -6,6 +6,7 @@ import (
 	"fmt"
 	"os"
 	"path/filepath"
+	"sort"
 	"strings"
 	"testing"
 	"time"
@@ -112,6 +113,9 @@ func procWorld(c caseA) (*world, error) {
 		return nil, err
 	}
 	procW, procUses, procWKey = &world{sb: sb, proc: p, fx: fx, t: p}, 1, key
+	if err := neighbour(procW); err != nil {
+		return nil, err
+	}
 	return procW, nil
 }
 
@@ -134,7 +138,50 @@ func newWorld(c caseA) (*world, error) {
 		sb.Remove()
 		return nil, err
 	}
-	return &world{sb: sb, eng: eng, fx: fx, t: eng}, nil
+	w := &world{sb: sb, eng: eng, fx: fx, t: eng}
+	if err := neighbour(w); err != nil {
+		eng.Shutdown()
+		sb.Remove()
+		return nil, err
+	}
+	return w, nil
+}
+
+const keyMeta = "dir/meta" // an object whose last name is a word the sidecar metadata store uses itself
+
+// neighbour gives bucket A one more object, with attributes of every kind.
+func neighbour(w *world) error {
+	h := []s3c.KV{{K: "x-amz-meta-n", V: "neighbour"}, {K: "Content-Type", V: "text/neighbour"}, {K: "x-amz-tagging", V: "n=neighbour"}}
+	if r, err := w.fx.Root.Call("PUT", "/"+w.fx.BktA+"/"+keyMeta, nil, h, []byte("object three")); err != nil || !r.OK() {
+		return fmt.Errorf("put %s: %v %v", keyMeta, r, err)
+	}
+	return nil
+}
+
+// attrsOf: what the API tells about an object besides its bytes
+func attrsOf(w *world, key string) string {
+	cl := w.fx.Root
+	r, err := cl.Call("HEAD", "/"+w.fx.BktA+"/"+key, nil, nil, nil)
+	if err != nil {
+		return "transport: " + err.Error()
+	}
+	var meta []string
+	for k, v := range r.Header {
+		if lk := strings.ToLower(k); strings.HasPrefix(lk, "x-amz-meta-") {
+			meta = append(meta, lk+"="+strings.Join(v, ","))
+		}
+	}
+	sort.Strings(meta)
+	out := fmt.Sprintf("HEAD %d ETag %s Content-Type %q Content-Length %s meta %v", r.Status, r.Header.Get("ETag"), r.Header.Get("Content-Type"), r.Header.Get("Content-Length"), meta)
+	if tg, err := cl.Call("GET", "/"+w.fx.BktA+"/"+key, s3c.Q("tagging", ""), nil, nil); err == nil {
+		var t s3c.Tagging
+		if s3c.ParseXML(tg, &t) == nil {
+			out += fmt.Sprintf(" tags(%d) %+v", tg.Status, t.Tags)
+		} else {
+			out += fmt.Sprintf(" tags(%d)", tg.Status)
+		}
+	}
+	return out
 }
 
 // hostile strings are built relative to the directory the parameter is joined to; the
@@ -152,6 +199,10 @@ var templates = []string{
 	// one level less: for parameters that are joined to the storage root itself (bucket names, the bucket part of a copy source)
 	"../outside/canary.txt", "../outside/planted", "../iam/users.json", "../iam/canary.txt", "../iam/planted", "../ver/planted", "../sidecar/planted",
 	"/../outside/canary.txt", "../outside/canary.txt?versionId=null", "..", "../outside",
+}
+
+func multipartOp(op string) bool {
+	return strings.Contains(op, "Part") || strings.Contains(op, "Multipart")
 }
 
 func expand(tpl string, sb *gw.Sandbox) string {
@@ -343,10 +394,34 @@ func execA(c caseA) (v verdict, err error) {
 		}
 		return false
 	}
+	// the objects of the bucket the request does not name: what the API tells about each must stay as it is
+	others := map[string]string{}
+	if c.Param == "key" && !strings.Contains(h, "..") && !strings.Contains(h, "\x00") && !multipartOp(c.Spec.Op) {
+		for _, k := range []string{cat.KeyObj, cat.KeyNested, keyMeta, cat.KeyDirObj} {
+			if filepath.Clean("/"+h) != filepath.Clean("/"+k) {
+				others[k] = attrsOf(w, k)
+			}
+		}
+	}
+	dataBefore := map[string][]byte{}
+	for _, k := range []string{cat.KeyObj, cat.KeyNested} {
+		if b, err := os.ReadFile(filepath.Join(w.sb.Root, w.fx.BktA, k)); err == nil && len(b) > 0 {
+			dataBefore[k] = b
+		}
+	}
 	dirs := map[string]string{"sandbox": w.sb.Base}
 	before := gw.Snap(dirs, inA)
 	resp, terr := s3c.Do(w.t, req)
 	after := gw.Snap(dirs, inA)
+	for _, k := range []string{cat.KeyObj, cat.KeyNested, keyMeta, cat.KeyDirObj} {
+		was, ok := others[k]
+		if !ok {
+			continue
+		}
+		if now := attrsOf(w, k); now != was {
+			return v, fmt.Errorf("%s by %s with %s=%q (%s; request line %s) changed the object %q, which the request does not name: %s -> %s", c.Spec.Op, c.Caller, c.Param, h, c.Spelling, trunc(req.WirePath()), k, was, now)
+		}
+	}
 	pfx := fmt.Sprintf("%s by %s with %s=%q (%s; request line %s)", c.Spec.Op, c.Caller, c.Param, h, c.Spelling, trunc(req.WirePath()))
 	if d := gw.Diff(before, after); len(d) > 0 {
 		// the users file is legitimately rewritten by nothing in this property: no admin mutation is generated with valid semantics
@@ -369,7 +444,13 @@ func execA(c caseA) (v verdict, err error) {
 				continue
 			}
 			data, rerr := os.ReadFile(filepath.Join(w.sb.Root, w.fx.BktA, k))
-			if rerr != nil || !bytes.Contains(data, []byte(content)) {
+			was, existed := dataBefore[k]
+			if !existed {
+				// (a long-lived gateway: an earlier, legitimate request removed the object)
+				continue
+			}
+			content = string(was)
+			if rerr != nil || !bytes.Equal(data, was) {
 				return v, fmt.Errorf("%s changed the object %q, which the request does not name (the name given only resolves to the same file): now %q (%v)", pfx, k, trunc(string(data)), rerr)
 			}
 			if resp != nil && resp.Status/100 == 2 && c.Param != "copy-source" && bytes.Contains(resp.Body, []byte(content)) {
@@ -438,6 +519,11 @@ var paramsByLevel = map[string][]string{
 	"admin":   {"admin-bucket", "admin-owner", "admin-access"},
 }
 
+// names next to, above and below the objects of the bucket (and the words a metadata store may use for its own
+// bookkeeping): each names an object of its own, or nothing - never the neighbour
+var neighbours = []string{"dir/", "dir/", "dir", "dir/meta/", "dir/meta/x", "dir/meta/etag", "dir/obj2/meta", "dir/obj2/x", "obj1/meta", "obj1/x", "dirobj", "dirobj/meta", "dirobj/x",
+	"meta", "meta/", "dir/x", "dir/sub/", "dir/met", "dir/meta2", "dir/obj", "dir/obj22", "obj", "obj11"}
+
 func genCase(t *rapid.T) caseA {
 	var c caseA
 	c.Versioning = rapid.Bool().Draw(t, "versioning")
@@ -492,7 +578,15 @@ func genCase(t *rapid.T) caseA {
 		return rapid.SampledFrom([]string{"", "", "/", "//", "dir/../", "obj1/../"}).Draw(t, "staging_lead") + s
 	}), rapid.SampledFrom([]string{
 		// other spellings of names that exist in the bucket: separators doubled, leading, trailing
-		"dir//obj2", "dir///obj2", "dir//obj2", "/obj1", "//obj1", "obj1/", "obj1//", "dir/obj2/", "/dir/obj2", "dir//", "dirobj//"})).Draw(t, "hostile")
+		"dir//obj2", "dir///obj2", "dir//obj2", "/obj1", "//obj1", "obj1/", "obj1//", "dir/obj2/", "/dir/obj2", "dir//", "dirobj//"}),
+		rapid.SampledFrom(neighbours)).Draw(t, "hostile")
+	if rapid.IntRange(0, 7).Draw(t, "neighbourhood") == 0 {
+		// an object operation that names a neighbour of the bucket's objects
+		c.Param = "key"
+		c.Spec.Op = rapid.SampledFrom([]string{"PutObject", "PutObjectEmpty", "PutObjectEmpty", "DeleteObject", "CopyObject", "PutObjectTagging", "DeleteObjectTagging", "CreateMultipartUpload", "GetObject", "HeadObject"}).Draw(t, "neighbour_op")
+		c.Hostile = rapid.SampledFrom(neighbours).Draw(t, "neighbour")
+		c.Sidecar = rapid.Bool().Draw(t, "neighbour_sidecar")
+	}
 	c.Spelling = rapid.SampledFrom([]string{"plain", "plain", "raw", "raw", "pct", "pct-lower", "double", "mixed"}).Draw(t, "spelling")
 	c.Dup = rapid.SampledFrom([]int{0, 0, 0, 1, 2}).Draw(t, "dup")
 	return c
